@@ -19,8 +19,9 @@ ASSUME = [
     "insaneJSON.MapUseThreshold = math.MaxInt32 as set by proxy/bulk's init() in the seq-db binary (asserted by the driver): "
     "Dig's map cache is never used, so only the linear Dig is modelled",
     "documents have fewer than 2^24 top-level fields (width of insane-json's index and dirty-sequence bit fields)",
-    "block-list theorem: top-level keys pairwise distinct after unescaping (documents with duplicate keys are a separate "
-    "stream judged against the property text; see C20_except_dup_keys_refuted)",
+    "documents with duplicate keys are judged by the property text read on (key, value) pairs: every occurrence of a "
+    "listed key is kept (allow) / removed (except); stream dupkeys-* is a permanent regression class (finding repaired by "
+    "/repo c998f0f, old algorithm kept as filter_fields_except_v0 with C20_except_dup_keys_v0_refuted)",
 ]
 RULE = ("random JSON objects (0..30 top-level fields; strings with every escape spelling, unicode, surrogate pairs; numbers in "
         "integer/fraction/exponent/big notations; nested arrays/objects; whitespace variants) x field lists (subset, all, "
